@@ -338,6 +338,8 @@ def case_term(job, res):
 def py_outcome(job, res):
     """Direct behavioural check: every read path returns the document's tables and pairs."""
     exp = G.expected(job['doc'])
+    if res.get('bystander_changed'):
+        return 'another-live-object-changed', [res['bystander_changed']]
     for key in ('path', 'text', 'bin'):
         r = res.get(key)
         if r is None or 'exc' in r:
